@@ -253,6 +253,14 @@ func runCase(c *Case) Obs {
 	dir, _ := ioutil.TempDir("", "c06-")
 	defer os.RemoveAll(dir)
 	sess := filepath.Join(dir, "session.json")
+	if hs := len(c.ID) + int(c.ID[len(c.ID)-1]); hs%4 == 0 {
+		// the session file's directory is named through a symbolic link (a mounted volume, a `current` release link):
+		// a directory for every purpose of the store
+		_ = os.Mkdir(filepath.Join(dir, "real"), 0o700)
+		if os.Symlink(filepath.Join(dir, "real"), filepath.Join(dir, "link")) == nil {
+			sess = filepath.Join(dir, "link", "session.json")
+		}
+	}
 	k := testKeys[c.Key%len(testKeys)]
 	store := &countingStore{inner: session.NewFromFile(sess)}
 	m, err := mtproto.NewMTProto(mtproto.Config{
